@@ -138,7 +138,7 @@ def check_rewrite_scope(ctx: Ctx) -> None:
             ctx.ob("R-REWRITE-store", f"{fi.qual} :: {norm(n.ast)}", ok,
                    "text may only be written into a node proven to be a marko RawText (isinstance test on the same object on "
                    f"every path); guards seen: {tests}", where(fi, n))
-    ctx.require("R-REWRITE", "stores to .children in the transforms package", n_sites, 5)
+    ctx.require("R-REWRITE", "stores to .children in the transforms package", n_sites, 2)
 
     # (b) the container table does not reach code / HTML / literal nodes
     cont, cd = _const_tuple(ctx, "flowmark.transforms.doc_transforms", "ContainerElement")
@@ -188,7 +188,7 @@ def _segments_nodes_are_rawtext(ctx: Ctx, report: bool = False) -> bool:
                        "a segment may carry a node reference (= be writable) only under an isinstance(element, RawText) test: " + why,
                        where(cs, c))
     if report:
-        ctx.require("R-REWRITE", "segment append sites", n, 6)
+        ctx.require("R-REWRITE", "segment append sites", n, 3)
         # the text component of a mutable segment is that node's own text
         rec = [(nn, c) for nn, c in flow.all_calls() if prog.resolve_call(cs, c) == [cs]]
         for nn, c in rec:
@@ -264,7 +264,7 @@ def check_coalesce_and_tags(ctx: Ctx, which: set[str] | None = None) -> None:
                                "a text rewriter applied to prose must cut template tags ({% %}, {# #}, {{ }}, <!-- -->) out first "
                                "(TEMPLATE_TAG_PATTERN): tags are ordinary text to the Markdown parser, so their contents would be rewritten",
                                where(r, r.node))
-        ctx.require("R-REWRITE", "rewriter functions passed from fill_markdown", n_rw, 2)
+        ctx.require("R-REWRITE", "rewriter functions passed from fill_markdown", n_rw, 1)
 
 
 def alias_groups(ctx: Ctx) -> list[list[str]]:
@@ -297,7 +297,7 @@ def check_alias_coverage(ctx: Ctx) -> None:
     rm = get_model(ctx)
     groups = alias_groups(ctx)
     ctx.note("alias_groups", groups)
-    ctx.require("R-REWRITE-alias", "alias groups of element types", len(groups), 2)
+    ctx.require("R-REWRITE-alias", "alias groups of element types", len(groups), 1)
 
     def qual_of(t: str) -> str:
         reg = rm.by_type(t)
@@ -463,7 +463,7 @@ def check_quotes_shape(ctx: Ctx) -> None:
         ctx.ob("R-SUBSHAPE-quote", f"{cb.qual} :: {norm(v)[:70]}", ok,
                "the replacement must be group1 + one curly quote + the content group + the matching curly quote + group4 "
                f"(length preserving, only the two quote positions change); {detail}", where(cb, r))
-    ctx.require("R-SUBSHAPE", "returns of the quote callback", n_ret, 3)
+    ctx.require("R-SUBSHAPE", "returns of the quote callback", n_ret, 2)
     # apostrophes: one-character pattern, one-character replacement; the split keeps its separators
     aflow = prog.flow(ap)
     n_sub = 0
@@ -481,7 +481,7 @@ def check_quotes_shape(ctx: Ctx) -> None:
             ok = isinstance(p, ast.Constant) and isinstance(p.value, str) and _is_single_capture(p.value)
             ctx.ob("R-SUBSHAPE-apostrophe", f"{ap.qual} :: {norm(c)[:60]}", ok,
                    "re.split must capture its separator in one group so that ''.join restores every character", where(ap, c))
-    ctx.require("R-SUBSHAPE", "apostrophe substitutions", n_sub, 2)
+    ctx.require("R-SUBSHAPE", "apostrophe substitutions", n_sub, 1)
     joins = [c for n, c in aflow.all_calls() if isinstance(c.func, ast.Attribute) and c.func.attr == "join"
              and isinstance(c.func.value, ast.Constant) and c.func.value.value == ""]
     ctx.ob("R-SUBSHAPE-apostrophe", f"{ap.qual} :: words rejoined with the empty string", bool(joins),
@@ -510,7 +510,7 @@ def check_quotes_shape(ctx: Ctx) -> None:
                 ok = lo == "last_end" and hi in ("start", "") and isinstance(sl.value, ast.Name) and sl.value.id == sq.params[0]
         ctx.ob("R-SUBSHAPE-tags", f"{sq.qual} :: {norm(c)[:70]}", ok,
                "outside tags the rewriter is applied to the slices text[last_end:start] / text[last_end:], which partition the text", where(sq, c))
-    ctx.require("R-SUBSHAPE", "segment appends in smart_quotes", n_app, 3)
+    ctx.require("R-SUBSHAPE", "segment appends in smart_quotes", n_app, 2)
     upd = [n for n in sflow.cfg.nodes if n.kind == "stmt" and isinstance(n.ast, ast.Assign) and norm(n.ast) == "last_end = end"]
     ctx.ob("R-SUBSHAPE-tags", f"{sq.qual} :: cursor advances to the end of each tag", len(upd) == 1,
            "last_end = end after every tag, so no character is skipped or duplicated", where(sq, sq.node))
@@ -657,7 +657,7 @@ def check_ellipsis_shape(ctx: Ctx) -> None:
         ctx.ob("R-SUBSHAPE-ellipsis", f"{cb.qual} :: {norm(v)[:50]} built from groups 1,2,4,5", ok,
                f"the replacement may only contain the groups around the dots, a space and the ellipsis character; groups used {sorted(gs)}, "
                f"literals emitted {sorted(emitted)}", where(cb, r))
-    ctx.require("R-SUBSHAPE", "returns of the ellipsis callback", n_ret, 2)
+    ctx.require("R-SUBSHAPE", "returns of the ellipsis callback", n_ret, 1)
     _check_literals(ctx, mod, {"…", "“", "‘", "”", "’", "—"})
 
 
